@@ -77,7 +77,7 @@ def _unwrap_replay():
 _unwrap_replay()
 e1check.run(dict(
     prop='C07', model='cv', harness='e1/cv.cpp', bin='e1_cv', gen=gen, nontrivial=nontrivial, stats=stats,
-    quick=6000, thorough=300000, extra=12000,
+    quick=6000, thorough=150000, extra=12000,
     rule='random programs (2-6 threads, 1-3 blocks each: waiter blocks lock;wait|wait(pred)|wait_for|wait_for(pred);unlock, notifier blocks with set/notify_one/notify_all inside or after the critical section, bare notifies) on one pika::condition_variable or condition_variable_any with a user-defined lock (via std::unique_lock or directly) or std::unique_lock<spinlock>, PRNG schedules (uniform / priority / sticky), virtual deadlines; non-trivial = at least one thread enqueued on the condition variable; distinct = distinct (program, schedule seed) text',
     assumptions=['stop_token waits (condition_variable_any::wait(lock, stop_token, pred)) are not yet in the Lean model',
                  'the user lock is modelled as an abstract mutual-exclusion lock; pika::mutex as the user lock (needs pika task identity) is not exercised by the harness',
